@@ -916,6 +916,10 @@ def stage_glue(cx: Ctx, n_cases: int) -> None:
 # search (only when the tie/proof broke and no violation is known): bigger hunt on the real code, property only
 # ------------------------------------------------------------------------------------------------
 def search(chk: core.Check) -> None:
+    from verif.props import c15_nsga
+    c15_nsga.search(chk)
+    if chk.violations:
+        return
     cx = Ctx(chk)
     r = chk.rng
     shrunk: set[str] = set()
@@ -955,13 +959,15 @@ def search(chk: core.Check) -> None:
 # ------------------------------------------------------------------------------------------------
 def main(chk: core.Check) -> int:
     chk.rule = RULE
+    from verif.props import c15_nsga as _nsga
+    _nsga.translate(chk)  # T-nsga2: content keys of the NSGA-II functions mirrored by Model/Nsga2.lean
     if not getattr(chk, "no_prove", False):
-        chk.prove()
+        chk.prove(["OptunaVerif.Props.C15", "OptunaVerif.Props.C15Nsga"])
     quick = chk.tier == "quick"
     shrunk: set[str] = set()
     if not quick and not getattr(chk, "no_prove", False):
         # independent kernel replay of the compiled proofs (DESIGN 1.2)
-        mods = ["OptunaVerif.Props.C15", "OptunaVerif.Lemmas.Hypervolume", "OptunaVerif.Lemmas.Rank", "OptunaVerif.Lemmas.Hssp", "OptunaVerif.Lemmas.HsspReal"]
+        mods = ["OptunaVerif.Props.C15", "OptunaVerif.Props.C15Nsga", "OptunaVerif.Lemmas.Hypervolume", "OptunaVerif.Lemmas.Rank", "OptunaVerif.Lemmas.Hssp", "OptunaVerif.Lemmas.HsspReal"]
         with core.lake_lock():
             rc, out, err = core.run(["lake", "env", "leanchecker"] + mods, cwd=core.LEAN_DIR, timeout=1500)
         chk.extra["leanchecker"] = {"modules": mods, "exit": rc}
@@ -977,6 +983,8 @@ def main(chk: core.Check) -> int:
         stage_rank(cx, 1500 if quick else 50000, shrunk)
         stage_hssp(cx, 1800 if quick else 50000, 8 if quick else 9, shrunk)
         stage_glue(cx, 200 if quick else 6000)
+        from verif.props import c15_nsga
+        c15_nsga.correspond(chk, chk.tier)  # NSGA-II elite selection / crowding distance / whole-sampler replay
     except core.DriverBroken as e:
         chk.broke("correspondence", {"driver": str(e)[:800]})
     except AbortRun:
@@ -996,6 +1004,10 @@ def main(chk: core.Check) -> int:
 
 def replay(chk: core.Check, path: str) -> int:
     rep = json.load(open(path))
+    from verif.props import c15_nsga
+    rc = c15_nsga.replay(chk, rep)
+    if rc is not None:
+        return rc
     cx = Ctx(chk)
     core.ensure_driver()
     if rep.get("kind") != "violation":
